@@ -259,7 +259,16 @@ Finish ==
   /\ PrintT(<<"DONE", ToJson([lines |-> Len(Trace), traces |-> t])>>)
   /\ l' = l + 1 /\ UNCHANGED <<t, l1, l2, ledger, rows, rowsBefore, lastTick, viol>>
 
-Next == EvReset \/ EvBlock \/ EvL2Reorg \/ EvSubmit \/ EvAgMove \/ EvTick \/ EvRestart \/ EvDb \/ EvOther \/ Finish
+(* an upgraded node: the aggsender database written by an earlier run of the repository's code, opened by the code under test
+   (harness/areas/aggsender/persist.go): every getter answers what it answered when the file was written *)
+EvPersist ==
+  /\ Ev("persist")
+  /\ viol' = viol \o (IF Trace[l].want = Trace[l].got THEN <<>>
+                      ELSE <<V("StoredCertificatesSurviveUpgrade", [q |-> Trace[l].q, round |-> Trace[l].round,
+                                                                     want |-> Trace[l].want, got |-> Trace[l].got])>>)
+  /\ l' = l + 1 /\ UNCHANGED <<t, l1, l2, ledger, rows, rowsBefore, lastTick>>
+
+Next == EvPersist \/ EvReset \/ EvBlock \/ EvL2Reorg \/ EvSubmit \/ EvAgMove \/ EvTick \/ EvRestart \/ EvDb \/ EvOther \/ Finish
 Spec == Init /\ [][Next]_vars
 
 HW == TLCSet(1, IF l > TLCGet(1) THEN l ELSE TLCGet(1))
